@@ -47,7 +47,7 @@ def run(tier, rep, ev):
             for rec, asset, slash, sink in combos:
                 cases.append({"shape": shape, "calls": [{"name": "extract", "T": T, "rec": rec, "asset": asset, "slash": slash, "sink": sink}],
                               "target": "path" if len(cases) % 2 else "stream", "password": "pw" if len(cases) % 7 == 0 else None,
-                              "coder": ["lzma2", "copy", "bzip2", "deflate"][si % 4], "seed": si, "ending": "close",
+                              "coder": ["lzma2", "copy", "bzip2", "deflate", "copy", "bcj+lzma2", "delta+lzma2"][len(cases) % 7], "seed": si, "ending": "close",
                               "wd": os.path.join(base, f"c{len(cases)}")})
     ev.sample({"shape": shapes[-1], "case": {k: v for k, v in cases[len(cases) // 2].items() if k not in ("shape", "wd")}})
     _read.run_and_validate("C09", cases, rep, ev, validate)
